@@ -1,6 +1,4 @@
 import Pendulum.Proofs.IsoReject
-import Pendulum.Proofs.ParserGen
-import Pendulum.Proofs.IsoPyGen
 /-! # C07 — ISO 8601 / RFC 3339 date and time strings parse to the value they denote, both parser backends
 
 Property theorems only. `Iso.parseIso b` is the model of `parse_iso8601` of backend `b` (`Model/Iso.lean`:
@@ -238,114 +236,5 @@ example : parseIso .py "2021-03-04 12:34:56.5+01:00".toList = .ok (dateTimeV 202
 example : Rejected (parseIso .rust "2021-W01-0".toList) ∧ Rejected (parseIso .py "2021-W00".toList) := by
   unfold Rejected; decide
 example : rIsoformat 'T' true true 2021 3 4 5 6 7 0 0 = "2021-03-04T05:06:07Z".toList := by decide
-
-/-! ### the public wrapper as regenerated from the source (`Gen/Parser.lean`, tools/gen_parser.py) -/
-
-open Pendulum.ParserGen in
-/-- **public_wrapper_source_eq_model.** `_normalize` (parsing/__init__.py) followed by the type dispatch of `parser._parse`, as
-    written in the source and regenerated on every run — `exact`; a time completed from `now`; a date at midnight; an aware
-    datetime through `pendulum.instance(parsed)`, a naive one through `pendulum.datetime(<seven fields>, tz=options.get("tz",
-    UTC))`; `pendulum.date` / `pendulum.time` — is the model's `wrap` (the second half of `publicParse`), for the `tz` option
-    absent (`none`) or a fixed offset. Hypotheses: the stdlib and pendulum constructors are what the model says (`StdOk`,
-    `PendOk`; satisfiable: `Props.C17.front_end_hypotheses_satisfiable`), the value is a real date/time object (`WF`). -/
-theorem public_wrapper_source_eq_model (rk : IsoDur.Parsed → Bool) (b : Backend) (ext : Gen.Parser.Ext PV) (hstd : StdOk ext)
-    (hp : PendOk rk b ext) (text : List Char) (v : Value) (hv : WF v) (d o : Gen.Parser.Dict) (n : Option Gen.Parser.NowV)
-    (hn : d.now = some n)
-    (hnow : dateOk (nowOf (n.getD ext.datetime_now)).1 (nowOf (n.getD ext.datetime_now)).2.1 (nowOf (n.getD ext.datetime_now)).2.2)
-    (tz : Option Int) (htz : o.tz = tz.map Gen.Parser.TzVal.fixed) :
-    mapE PV.toOut (Gen.Parser.bindE (Gen.Parser.parsing_p_normalize ext (.obj (objOf v)) d) fun p =>
-        Gen.Parser.parser_p_parse_dispatch ext text p o) =
-      liftE ParseAll.outOfValue (wrap (Gen.Parser.py_truthy_optbool d.exact) tz (nowOf (n.getD ext.datetime_now)) v) := by
-  rw [wrap_eq rk b ext hstd hp text v hv d o n hn hnow, htz]
-  cases tz <;> rfl
-
-/-! ### the pure-Python ISO 8601 parser as regenerated from the source (`Gen/IsoPy.lean`, tools/gen_isopy.py) -/
-
-section Regenerated
-open Pendulum.IsoPyGen
-open Pendulum.Gen.IsoPy (Ext)
-
-/-- **iso_datetime_source_eq_model.** `parse_iso8601` after `ISO8601_DT.match`, as written in the source and regenerated on
-    every run — the date block (calendar / ordinal / week dates, the basic-vs-extended separator checks, the ambiguous `YYYYMM`),
-    date-only and `hhmmss` returns, the separator checks of the time part, `int()` of hour / minute / second, the fraction padded
-    to six digits, the offset block, and the constructor finally called — is the post-processing half `pyPost` of the model's
-    `pyParse` (second conjunct: `pyParse` = match, then `pyPost`), for every match of the expression (`WD`, `WT`: any
-    alternative, any decimal digits, any separators). `build` turns the returned constructor request into the model's
-    `mkDate` / `mkTime` / `mkDateTime`. Hypotheses: the regex-shape facts (`valid`), the external callees (`ExtOk`; satisfiable:
-    `iso_source_hypotheses_satisfiable`). -/
-theorem iso_datetime_source_eq_model {V : Type} (ext : Ext V) (hx : ExtOk ext) (d : WD) (t : Option WT) (hd : d.valid)
-    (ht : ∀ x, t = some x → x.valid) :
-    Gen.IsoPy.bindE (Gen.IsoPy.py_iso_datetime ext (dtGroups d t)) build = liftE id (pyPost d.py (t.map WT.py)) ∧
-    ∀ cs0 : List Char, pyParse cs0 =
-      (if cs0.head? = some 'P' then .error (.other "Duration") else
-       match pyMatch (stripNl cs0) with
-       | none => .error .parserError
-       | some (dg, tg) => pyPost dg tg) :=
-  ⟨datetime_tie ext hx d t hd ht, pyParse_eq_post⟩
-
-/-- the date block alone: (is_date, year, month, day, ambiguous_date) = the model's `pyDateFields` -/
-theorem iso_date_part_source_eq_model {V : Type} (ext : Ext V) (hx : ExtOk ext) (d : WD) (t : Option WT) (hd : d.valid) :
-    Gen.IsoPy.py_iso_date_part ext (dtGroups d t) false 0 1 1 false =
-      liftE (fun r => (d.isDate, r.1, r.2.1, r.2.2.1, r.2.2.2)) (pyDateFields d.py) :=
-  date_part_tie ext hx d t hd
-
-/-- **week_date_source_eq_model.** `_get_iso_8601_week` on the texts of `isoyear` (4 digits), `isoweek` (2) and `isoweekday`
-    (1, optional): the same (year, month, day) as the model's `pyWeek`, and it raises `ParserError` / `ValueError` (both turned
-    into `ParserError` by the caller's handlers) exactly when `pyWeek` rejects -/
-theorem week_date_source_eq_model {V : Type} (ext : Ext V) (hx : ExtOk ext) (ty tw : List Char) (twd : Option (List Char))
-    (hy : Dig 4 ty) (hw : Dig 2 tw) (hwd : ∀ t, twd = some t → Dig 1 t) :
-    WeekRel (Gen.IsoPy.py_get_iso_8601_week ext (some ty) (some tw) twd) (pyWeek (val ty) (val tw) (twd.map val)) :=
-  week_tie ext hx ty tw twd hy hw hwd
-
-/-- **offset_source_eq_model.** the `if tz:` block on the text of the group `tz` (`Z`, `±hh`, `±hhmm`, `±hh:mm`, `±hh:`): the
-    offset in seconds of the `tzinfo` it builds (`UTC` → 0, `FixedTimezone(offset)` → offset) is the model's `pyTzOffset`,
-    sign, hour·60·60 and minute·60 included, and `±hh:` is the same `ValueError` -/
-theorem offset_source_eq_model {V : Type} (ext : Ext V) (hx : ExtOk ext) (g : Gen.IsoPy.DtGroups) (otz : Option WTz)
-    (hv : ∀ t, otz = some t → t.valid) :
-    Gen.IsoPy.bindE (Gen.IsoPy.py_iso_offset ext g (otz.map WTz.text)) (fun t => .ok (tzOff t)) =
-      liftE id (pyTzOffset (otz.map WTz.py)) :=
-  offset_tie ext hx g otz hv
-
-/-- the expression whose matching is not translated, and the statements of `parse_iso8601` up to the match test, verbatim -/
-theorem iso8601_dt_regex_pinned :
-    Gen.IsoPy.ISO8601_DT_pattern =
-      "^(?P<date>    (?P<classic>        (?P<year>\\d{4})        (?P<monthday>            (?P<monthsep>-)?(?P<month>\\d{2})            ((?P<daysep>-)?(?P<day>\\d{1,2}))?        )?    )    |    (?P<isocalendar>        (?P<isoyear>\\d{4})        (?P<weeksep>-)?        W        (?P<isoweek>\\d{2})        (?P<weekdaysep>-)?        (?P<isoweekday>\\d)?    ))?(?P<time>    (?P<timesep>[T\\ ])?    (?P<hour>\\d{1,2})(?P<minsep>:)?(?P<minute>\\d{1,2})?(?P<secsep>:)?(?P<second>\\d{1,2})?    (?P<subsecondsection>        (?:[.,])        (?P<subsecond>\\d{1,9})    )?    (?P<tz>        (?:[-+])\\d{2}:?(?:\\d{2})?|Z    )?)?$\nre.VERBOSE" ∧
-    Gen.IsoPy.py_iso_datetime_prologue =
-      "parsed = _parse_iso8601_duration(text)\nif parsed is not None:\n    return parsed\nm = ISO8601_DT.match(text)\nif not m:\n    raise ParserError('Invalid ISO 8601 string')" := by
-  itie "C07.iso8601_dt_regex_pinned" "iso8601.py::ISO8601_DT (the expression) or the first statements of parse_iso8601" =>
-    exact ⟨rfl, rfl⟩
-
-/-- the reference callees: Python's decimal digit table, `date(y, 1, 1) + timedelta(days=n)` inside year `y` -/
-def refExt : Ext Unit where
-  digit := dv .py
-  date_add_days := fun y _ _ n =>
-    if 1 ≤ y ∧ y ≤ 9999 then
-      .ok (y, Cal.monthOfYday (Cal.isLeap y) n, n + 1 - Cal.daysBeforeMonth (Cal.isLeap y) (Cal.monthOfYday (Cal.isLeap y) n))
-    else .error "ValueError"
-  Duration := fun _ => .ok ()
-
-theorem iso_source_hypotheses_satisfiable : ExtOk refExt := ⟨rfl, fun _ _ _ _ => rfl⟩
-
-/-- the groups of `2021-03-04T05:06:07.5+01:30`, of `2021W047` and of `202107` (read as 20:21:07) -/
-def sampleT : WT := ⟨some 'T', "05".toList, true, some "06".toList, true, some "07".toList, some ('.', "5".toList),
-  some (.off false "01".toList true (some "30".toList))⟩
-example : (dtGroups (.ymd "2021".toList true "03".toList true "04".toList) (some sampleT)).time =
-    some "T05:06:07.5+01:30".toList ∧ (dtGroups (.ymd "2021".toList true "03".toList true "04".toList) (some sampleT)).monthday =
-    some "-03-04".toList := by decide
-example : (WD.ymd "2021".toList true "03".toList true "04".toList).valid ∧ sampleT.valid := by
-  refine ⟨⟨?_, ?_, Or.inr ?_⟩, ?_, Or.inr ?_, ?_, ?_, ?_, ?_⟩ <;>
-    simp [Dig, IsDigits, Dig12, sampleT, WTz.valid] <;> decide
-example : Gen.IsoPy.py_iso_datetime refExt (dtGroups (.ymd "2021".toList true "03".toList true "04".toList) (some sampleT)) =
-    .ok (.datetime 2021 3 4 5 6 7 500000 (.fixed 5400)) := by decide
-example : Gen.IsoPy.py_iso_datetime refExt (dtGroups (.week "2021".toList false "04".toList false (some "7".toList)) none) =
-    .ok (.date 2021 1 31) := by decide
-example : Gen.IsoPy.py_iso_datetime refExt (dtGroups (.ym "2021".toList false "07".toList) none) =
-    .ok (.time 20 21 7 0 .none) := by decide
-example : Gen.IsoPy.py_iso_datetime refExt (dtGroups (.week "2021".toList true "04".toList false (some "7".toList)) none) =
-    .error "ParserError" := by decide
-/-- … and on the string itself the model's `pyParse` gives the value of that request -/
-example : pyParse "2021-03-04T05:06:07.5+01:30".toList = .ok (dateTimeV 2021 3 4 5 6 7 500000 (some 5400)) := by decide
-
-end Regenerated
 
 end Pendulum.Props.C07
